@@ -30,6 +30,7 @@
 #include <iostream>
 #include <vector>
 #include <algorithm>
+#include <functional>
 
 #include "constant.hh"
 #include "flag_saver.hh"
@@ -184,27 +185,30 @@ constant::operator< (constant that) const
   auto compare_magnitudes = [&] ()
     { return value () < that.value (); };
 
-  if (dom1 == dom2)
-    // Both domains are the same.  Possibly both are nullptr.
+  if (dom1 == nullptr && dom2 == nullptr)
     return compare_magnitudes ();
   if (dom1 == nullptr && dom2 != nullptr)
     return true;
   if (dom1 != nullptr && dom2 == nullptr)
     return false;
 
-  if (// If both domains are arithmetic, we can directly compare the
-      // values.
-      (dom1->safe_arith () && dom2->safe_arith ())
+  // Constants are ordered by class first, and by value within a class.
+  // All arithmetic domains form one class, so that their constants
+  // compare by value.  Otherwise the class is the sub-domain that best
+  // fits the constant.  Ordering by the domains themselves wouldn't be
+  // transitive (1 < 0x3, 0x3 < T_CONST, T_CONST < 1 could all hold).
+  auto cls = [] (constant_dom const *dom, mpz_class const &v)
+    {
+      return dom->safe_arith () ? &dec_constant_dom : dom->most_enclosing (v);
+    };
 
-      // Maybe we can find a common sub-domain that covers them both.
-      // That has no effect for arithmetic domains, so we don't need
-      // to care if both are arithmetic or only one of them is.
-      || (dom1->most_enclosing (value ())
-	  == dom2->most_enclosing (that.value ())))
+  auto const *cls1 = cls (dom1, value ());
+  auto const *cls2 = cls (dom2, that.value ());
+  if (cls1 == cls2)
     return compare_magnitudes ();
 
-  // Otherwise order the two constants by their domains.
-  return dom1 < dom2;
+  // Otherwise order the two constants by their classes.
+  return std::less <constant_dom const *> {} (cls1, cls2);
 }
 
 bool
